@@ -693,12 +693,6 @@ class AsyncClient(base_client.BaseClient):
         self.callbacks = {}
         self._binary_packet = None
         self.sid = None
-        if reason == self.reason.SERVER_DISCONNECT and \
-                self._reconnect_abort is not None and \
-                self in base_client.reconnecting_clients:
-            # the server closed the connection that a reconnection attempt
-            # had made: the effort in progress stops
-            self._reconnect_abort.set()
         if will_reconnect and not self._reconnect_task:
             # (the effort can be aborted from now on, also before its task
             # has executed its first statement)
